@@ -16,7 +16,9 @@ What the configuration of the remote machine calls for is written down here decl
   is an ssh machine and the other the very host it was created from, or one is a local
   (subprocess) host and the other an ssh / paramiko machine; everything else, an authenticator
   that cannot be used from the executing host, or an unknown authenticator must raise and run
-  no command at all. -/
+  no command at all.  One pairing is left to tbot's discretion: an ssh machine and a *clone* of
+  the (non-local) host it was created from — refusing it and doing the transfer with the right
+  parameters are both fine, anything else is not. -/
 
 namespace Ssh
 
@@ -65,9 +67,18 @@ def wantIdents (hs : List Host) (exec : Nat) : Auth → Option (List Str)
 
 /-- what must have happened -/
 inductive Want where
+  /-- must raise and run nothing -/
   | fail
+  /-- must succeed having run exactly these commands -/
   | cmds (l : List PEvent)
+  /-- may refuse (raise, run nothing) or do exactly this -/
+  | either (l : List PEvent)
   deriving Repr
+
+/-- a transfer tbot is free to refuse -/
+def Want.optional : Want → Want
+  | .cmds l => .either l
+  | w => w
 
 /-- `user@host` -/
 def target (e : Eff) : Str := e.user ++ '@' :: e.host
@@ -96,14 +107,24 @@ def wantConnect (hs : List Host) (i : Nat) : Want :=
 
 /-- how two machines relate for `copy` -/
 inductive Role where
-  | same | fromRemote | toRemote | unsupported
+  | same | fromRemote | toRemote
+  /-- an ssh machine and a *clone* of the host it was created from (which is not a local host):
+  the same two machines as in a supported pairing, but not the very instance -/
+  | fromRemoteViaClone | toRemoteViaClone
+  | unsupported
   deriving DecidableEq, Repr
+
+/-- `a` is an ssh machine created from a machine equal to `b` -/
+def viaEquals (hs : List Host) (a b : Nat) : Bool :=
+  isKind hs a .ssh && (viaOf hs a).any (fun v => sameMachine hs v b)
 
 def role (hs : List Host) (a b : Nat) : Role :=
   if sameMachine hs a b then .same
   else if classRelated hs a b then .unsupported   -- same machine class, but not the same machine
   else if (isKind hs a .ssh && viaOf hs a == some b) || (isKind hs b .loc && isRemote hs a) then .fromRemote
   else if (isKind hs b .ssh && viaOf hs b == some a) || (isKind hs a .loc && isRemote hs b) then .toRemote
+  else if viaEquals hs a b then .fromRemoteViaClone
+  else if viaEquals hs b a then .toRemoteViaClone
   else .unsupported
 
 /-- one `scp` on `exec` with the parameters of remote machine `r` -/
@@ -126,6 +147,8 @@ def wantCopy (hs : List Host) (a : Nat) (pa : Str) (b : Nat) (pb : Str) : Want :
   | .same => .cmds [⟨⟨a, 0⟩, false, .raw [.s (lit "cp"), .p ⟨a, 0⟩ pa, .p ⟨a, 0⟩ pb]⟩]
   | .fromRemote => wantScp hs a b pb pa false
   | .toRemote => wantScp hs b a pa pb true
+  | .fromRemoteViaClone => (wantScp hs a b pb pa false).optional
+  | .toRemoteViaClone => (wantScp hs b a pa pb true).optional
   | .unsupported => .fail
 
 def want (c : Case) : Want :=
@@ -171,6 +194,7 @@ def holds (w : Want) (o : Obs) : Bool :=
   match w with
   | .fail => o.err.isSome && o.events.isEmpty
   | .cmds l => o.err.isNone && eventsSame o.events l
+  | .either l => (o.err.isSome && o.events.isEmpty) || (o.err.isNone && eventsSame o.events l)
 
 end Ssh
 
